@@ -414,6 +414,14 @@ pipeline::~pipeline() {
     while( first_filter ) {
         d1::base_filter* f = first_filter;
         if( input_buffer* b = f->my_input_buffer ) {
+            // Items still parked in the buffer (the pipeline was cancelled) own their objects
+            for( Token i = 0; i < b->array_size; ++i ) {
+                task_info& item = b->array[i];
+                if( item.is_valid && item.my_object ) {
+                    f->finalize(item.my_object);
+                    item.my_object = nullptr;
+                }
+            }
             b->~input_buffer();
             deallocate_memory(b);
         }
